@@ -26,7 +26,7 @@ def run(c):
         trace = c.replay
     else:
         trace = c.scratch + "/beacon.ndjson"
-        c.run_driver(drv, ["-n", 3000 if c.thorough else 500, "-out", trace])
+        c.run_driver(drv, ["-n", 3000 if c.thorough else 360, "-out", trace])
     r = c.validate("BeaconingTrace", "BeaconingTrace.cfg", trace, timeout=3000)
     drift = _tlcout.renorm(r)
     c.judge_trace(r, trace)
